@@ -185,6 +185,58 @@ def run_selftest(prop, tier="quick", only=None, verbose=False):
     return res
 
 
+def _child(func, job, conn):
+    try:
+        conn.send(func(job))
+    except BaseException as e:  # noqa: BLE001
+        try:
+            conn.send(dict(error="".join(traceback.format_exception(type(e), e, e.__traceback__))[-3000:]))
+        except Exception:  # noqa: BLE001
+            pass
+    finally:
+        conn.close()
+
+
+def _run_parallel(func, jobs, nproc, hard_timeout):
+    """one forked process per job, at most nproc at a time; a worker that has not answered after hard_timeout seconds (a solver
+    call that ignores its own timeout) is killed and reported as an error, never as success"""
+    ctxm = mp.get_context("fork")
+    results = [None] * len(jobs)
+    pending = list(enumerate(jobs))
+    running = {}
+    while pending or running:
+        while pending and len(running) < nproc:
+            i, job = pending.pop(0)
+            parent, child = ctxm.Pipe(duplex=False)
+            p = ctxm.Process(target=_child, args=(func, job, child))
+            p.start()
+            child.close()
+            running[i] = (p, parent, time.time())
+        progressed = False
+        for i, (p, conn, t0) in list(running.items()):
+            if conn.poll(0):
+                try:
+                    results[i] = conn.recv()
+                except (EOFError, OSError):
+                    results[i] = dict(error="worker died while sending its result")
+                p.join(10)
+                del running[i]
+                progressed = True
+            elif not p.is_alive():
+                results[i] = dict(error=f"worker died without a result (exit code {p.exitcode})")
+                del running[i]
+                progressed = True
+            elif time.time() - t0 > hard_timeout:
+                p.kill()
+                p.join(10)
+                results[i] = dict(error=f"worker killed after the hard timeout of {hard_timeout} s (a solver call did not return)")
+                del running[i]
+                progressed = True
+        if not progressed:
+            time.sleep(0.05)
+    return results
+
+
 def run_check(prop, tier="quick", only=None, verbose=False, seed=0, mutant=None, quiet=False):
     t0 = time.time()
     if ROOT not in sys.path:
@@ -198,19 +250,17 @@ def run_check(prop, tier="quick", only=None, verbose=False, seed=0, mutant=None,
         import random
 
         random.Random(seed).shuffle(obs)
-    ctxm = mp.get_context("fork")
     nproc = min(16, len(obs), os.cpu_count() or 4)
-    with ctxm.Pool(nproc, maxtasksperchild=1) as pool:
-        sym = pool.map(_symbolic_worker, [(prop, o.name, tier, seed, mutant) for o in obs], chunksize=1)
-        # replay every candidate on the unshimmed library
-        replay_jobs = []
-        for o, r in zip(obs, sym):
-            for lab, L in (r.get("labels") or {}).items():
-                for m in L["models"]:
-                    replay_jobs.append((o.name, lab, m))
-            for m in (r.get("path_samples") or []):
-                replay_jobs.append((o.name, None, m))
-        conc = pool.map(_concrete_worker, [(prop, n, m, mutant) for n, lab, m in replay_jobs], chunksize=1) if replay_jobs else []
+    sym = _run_parallel(_symbolic_worker, [(prop, o.name, tier, seed, mutant) for o in obs], nproc, TIER_CFG[tier]["deadline_s"] + 90)
+    # replay every candidate on the unshimmed library
+    replay_jobs = []
+    for o, r in zip(obs, sym):
+        for lab, L in (r.get("labels") or {}).items():
+            for m in L["models"]:
+                replay_jobs.append((o.name, lab, m))
+        for m in (r.get("path_samples") or []):
+            replay_jobs.append((o.name, None, m))
+    conc = _run_parallel(_concrete_worker, [(prop, n, m, mutant) for n, lab, m in replay_jobs], min(16, os.cpu_count() or 4), 300) if replay_jobs else []
 
     findings = load_findings() if mutant is None else []
     violations, known, problems, mismatches = [], [], [], []
